@@ -123,6 +123,21 @@ fn main() {
                 enumerate: flag(&args, "--enumerate"),
             })
         }
+        "minimise" => {
+            // dsim minimise <replay file> [max execs] [max secs]: shrink its choice list in place
+            let path = args.get(2).expect("replay file");
+            let mut rf = runner::ReplayFile::load(path).expect("load");
+            let me = std::env::current_exe().unwrap().to_string_lossy().to_string();
+            let mut ex = runner::ExecClient::new(&me, &rf.sim);
+            let n0 = rf.choices.len();
+            let t0 = std::time::Instant::now();
+            let min = runner::minimise(&mut ex, &rf.choices, &rf.violation.class, args.get(3).and_then(|s| s.parse().ok()).unwrap_or(3000), args.get(4).and_then(|s| s.parse().ok()).unwrap_or(60.0));
+            println!("minimised {} -> {} choices in {} executions, {:.1}s", n0, min.len(), ex.executions, t0.elapsed().as_secs_f64());
+            rf.choices = min;
+            rf.minimised = true;
+            rf.save(path).expect("save");
+            0
+        }
         "list-sims" => {
             println!("{}", SIMS.iter().map(|s| s.name).collect::<Vec<_>>().join(" "));
             0
